@@ -447,7 +447,7 @@ func cmdRun(args []string) int {
 					validated++
 					if !ok && ro.Hang {
 						for vv, cs := range confirmed {
-							if vv.Harness == it.w.Harness && (vv.Kind == "lock" || vv.Kind == "deadlock") && strings.HasPrefix(cs, "confirmed") {
+							if vv.Harness == it.w.Harness && (vv.Kind == "lock" || vv.Kind == "deadlock" || vv.Kind == "hang") && strings.HasPrefix(cs, "confirmed") {
 								ok = true // the native hang is the reported defect, not a modelling mismatch
 							}
 						}
@@ -563,7 +563,7 @@ func classifyReplay(v *Violation, ro *replayOut) string {
 			return "confirmed: " + ro.Panic
 		}
 		return "not-reproduced (no native panic)"
-	case "deadlock", "lock":
+	case "deadlock", "lock", "hang":
 		if ro.Hang {
 			return "confirmed: native hang"
 		}
